@@ -166,16 +166,9 @@ func ConvertToIntree(protoLog *BranchUndoLog) *undo.BranchUndoLog {
 				}
 
 				for _, pbCol := range pbRow.Columns {
-					anyValue, err := convertAnyToInterface(pbCol.Value)
+					undoCol, err := restoreColumn(pbCol)
 					if err != nil {
 						continue
-					}
-
-					undoCol := types.ColumnImage{
-						KeyType:    types.IndexType(pbCol.KeyType),
-						ColumnName: pbCol.ColumnName,
-						ColumnType: types.JDBCType(pbCol.ColumnType),
-						Value:      anyValue,
 					}
 
 					undoRow.Columns = append(undoRow.Columns, undoCol)
@@ -198,16 +191,9 @@ func ConvertToIntree(protoLog *BranchUndoLog) *undo.BranchUndoLog {
 				}
 
 				for _, pbCol := range pbRow.Columns {
-					anyValue, err := convertAnyToInterface(pbCol.Value)
+					undoCol, err := restoreColumn(pbCol)
 					if err != nil {
 						continue
-					}
-
-					undoCol := types.ColumnImage{
-						KeyType:    types.IndexType(pbCol.KeyType),
-						ColumnName: pbCol.ColumnName,
-						ColumnType: types.JDBCType(pbCol.ColumnType),
-						Value:      anyValue,
 					}
 
 					undoRow.Columns = append(undoRow.Columns, undoCol)
@@ -221,6 +207,29 @@ func ConvertToIntree(protoLog *BranchUndoLog) *undo.BranchUndoLog {
 	}
 
 	return intreeLog
+}
+
+// restoreColumn rebuilds a column image from its protobuf form. The value travels as JSON and is
+// decoded by the column image's own JSON decoding, so that it comes back in the Go kind of its
+// column type (time values, bytes, sized integers) exactly as with the json parser; decoded into a
+// bare interface{} a timestamp stayed RFC3339 text and binary data stayed base64 text.
+func restoreColumn(pbCol *ColumnImage) (types.ColumnImage, error) {
+	var col types.ColumnImage
+	bytesValue := &wrappers.BytesValue{}
+	if err := anypb.UnmarshalTo(pbCol.Value, bytesValue, proto.UnmarshalOptions{}); err != nil {
+		return col, err
+	}
+	data, err := json.Marshal(&types.ColumnImage{
+		KeyType:    types.IndexType(pbCol.KeyType),
+		ColumnName: pbCol.ColumnName,
+		ColumnType: types.JDBCType(pbCol.ColumnType),
+		Value:      json.RawMessage(bytesValue.Value),
+	})
+	if err != nil {
+		return col, err
+	}
+	err = json.Unmarshal(data, &col)
+	return col, err
 }
 
 func convertAnyToInterface(anyValue *any.Any) (interface{}, error) {
